@@ -98,7 +98,8 @@ REQUIRED_BUCKETS = [f"row/{i}/{m}" for i, m in ROWS] + [
     "dim/setbased-time", "dim/lanelet-int-vertices", "dim/lanelet-stop-line", "dim/lanelet-reader-convert", "dim/lanelet-reader-contains",
     "dim/lanelet-reader-interpolate", "dim/index-reader-state", "dim/index-reader-subnet", "dim/create-from-network", "dim/replace-network",
     "dim/remove-lanelet-list", "dim/half-moved-network-then-queries", "dim/cycle-copy", "dim/cycle-set_dur", "dim/cycle-set_state",
-    "dim/cycle-list_edit"]
+    "dim/cycle-list_edit", "dim/cycle-aggregate-preserving-edit", "dim/next-state-agrees-pos", "dim/next-state-agrees-pos+ori",
+    "dim/next-state-agrees-ori", "dim/next-state-agrees-pos+ori+vel"]
 
 TOL = 1e-9
 
@@ -720,11 +721,24 @@ def g_state(r, t):
             "v": r.choice([0.0, 5.0, r.randint(0, 160) / 8.0])}
 
 
-def b_init(sp):
+def g_next_state(r, t):
+    """A successor of the current initial state: a third of them AGREE with it in some attributes (same position with another
+    heading, same pose at another time, same heading elsewhere, …) — the runner takes those attributes from the state the obstacle
+    holds at that moment."""
+    sp = g_state(r, t)
+    if r.random() < 0.35:
+        sp["like"] = r.choice([["pos"], ["pos"], ["pos", "vel"], ["pos", "ori"], ["ori"], ["ori", "vel"], ["pos", "ori", "vel"]])
+    return sp
+
+
+def b_init(sp, cur=None):
     import numpy as np
     from commonroad.scenario.state import InitialState
-    return InitialState(time_step=sp["t"], position=np.array([sp["x"], sp["y"]], dtype=float), orientation=sp["o"], velocity=sp["v"],
-                        acceleration=0.0, yaw_rate=0.0, slip_angle=0.0)
+    like = sp.get("like", []) if cur is not None else []
+    return InitialState(time_step=sp["t"],
+                        position=np.array(cur.position, dtype=float) if "pos" in like else np.array([sp["x"], sp["y"]], dtype=float),
+                        orientation=float(cur.orientation) if "ori" in like else sp["o"],
+                        velocity=float(cur.velocity) if "vel" in like else sp["v"], acceleration=0.0, yaw_rate=0.0, slip_angle=0.0)
 
 
 def g_traj(r, t0):
@@ -907,9 +921,9 @@ def gen_obs(ctx):
         big = r.choice([None, 6, 5])
         for i in range(r.randint(3, 5)):
             t0 += 1
-            ops.append(["update", g_state(r, t0), r.choice([0, 1, 2, 3]), r.choice([0, 5, 6]), r.choice([0, 7]), big])
+            ops.append(["update", g_next_state(r, t0), r.choice([0, 1, 2, 3]), r.choice([0, 5, 6]), r.choice([0, 7]), big])
         t0 += 1
-        ops.append(["update", g_state(r, t0), r.choice([0, 1, 2, 3]), r.choice([0, 5, 6]), r.choice([0, 7]), r.choice([1, 2])])
+        ops.append(["update", g_next_state(r, t0), r.choice([0, 1, 2, 3]), r.choice([0, 5, 6]), r.choice([0, 7]), r.choice([1, 2])])
         ops.append(["q_hist"])
         ops.append(["q_occ", t0])
         case["ops"] = ops[:14]
@@ -919,7 +933,7 @@ def gen_obs(ctx):
         m = r.choice([1, 2, 3])
         for i in range(r.randint(m + 1, m + 4)):
             t0 += 1
-            ops.append(["update", g_state(r, t0), r.choice([0, 1, 2, 3]), r.choice([0, 5, 6]), r.choice([0, 7]), m])
+            ops.append(["update", g_next_state(r, t0), r.choice([0, 1, 2, 3]), r.choice([0, 5, 6]), r.choice([0, 7]), m])
             if r.random() < 0.3:
                 ops.append(["tr", *g_motion_nz(r), "obstacle"])
             if r.random() < 0.5 or i >= m:
@@ -944,7 +958,7 @@ def gen_obs(ctx):
             ops.append(["set_meta", r.choice([0, 1, 2, 3]), r.choice([0, 5, 6]), r.choice([0, 7])])
             if dynamic and r.random() < 0.7:
                 t0 += 1
-                ops.append(["update", g_state(r, t0), r.choice([0, 1, 2]), r.choice([0, 5]), r.choice([0, 7]), bound])
+                ops.append(["update", g_next_state(r, t0), r.choice([0, 1, 2]), r.choice([0, 5]), r.choice([0, 7]), bound])
                 pred, n_upd = None, n_upd + 1
                 ops.append(["q_hist"])
             ops += queries()
@@ -985,7 +999,7 @@ def gen_obs(ctx):
         elif k == "set_init":
             t0 = t0 + r.choice([0, 0, 1])
             # a new state object, or the state the obstacle holds edited in place and handed back to the setter
-            ops.append(["set_init", g_state(r, t0)] if r.random() < 0.7 else ["set_init", g_state(r, t0), "same"])
+            ops.append(["set_init", g_next_state(r, t0)] if r.random() < 0.7 else ["set_init", g_state(r, t0), "same"])
         elif k == "set_shape":
             ops.append(["set_shape", g_shape(r)])
         elif k == "set_pred":
@@ -994,7 +1008,7 @@ def gen_obs(ctx):
         elif k == "update":
             m = bound if r.random() < 0.75 else r.choice([1, 2, 5, None, 0, -1, 0])
             t0n = t0 + r.choice([1, 1, 2])
-            ops.append(["update", g_state(r, t0n), r.choice([0, 1, 2, 3]), r.choice([0, 5, 6]), r.choice([0, 7]), m])
+            ops.append(["update", g_next_state(r, t0n), r.choice([0, 1, 2, 3]), r.choice([0, 5, 6]), r.choice([0, 7]), m])
             if m is None or m > 0:
                 t0, pred = t0n, None
                 n_upd += 1
@@ -1302,7 +1316,7 @@ def run_obs(ctx, case, model=True):
                     obs.initial_state = held                       # ... and the same object through the public setter
                     ctx.tag("mut/initial-state-same-object-reassigned")
                 else:
-                    obs.initial_state = b_init(op[1])
+                    obs.initial_state = b_init(op[1], obs.initial_state)
             r = call(f)
             rows.mutate("initialOccupancy", "obsSetInitialState")
             m_ops.append(["set_init", v, op[1]["t"]])
@@ -1333,7 +1347,9 @@ def run_obs(ctx, case, model=True):
             prev = (c_state(obs.initial_state), c_signal(obs.initial_signal_state), plain(obs.initial_center_lanelet_ids),
                     plain(obs.initial_shape_lanelet_ids))
             kw = {} if m is None else {"max_history_length": m}
-            r = call(obs.update_initial_state, b_init(st), b_signal(sg), b_ids(ce), b_ids(sh), **kw)
+            if st.get("like"):
+                ctx.tag("dim/next-state-agrees-" + "+".join(st["like"]))
+            r = call(obs.update_initial_state, b_init(st, obs.initial_state), b_signal(sg), b_ids(ce), b_ids(sh), **kw)
             mm = 6000 if m is None else m
             if m is None:
                 ctx.tag("hist/default-bound")
@@ -2324,7 +2340,23 @@ def gen_cyc(ctx):
         old = (es, off)
         k = r.choice(["set_es", "set_es", "set_off", "set_off", "set_active", "set_dur", "set_state", "list_edit", "copy"]
                      + (["replace"] if case["light"] else []))
-        if k == "set_dur":
+        if k == "set_dur" and len(es) > 1 and max(e[1] for e in es) > 1 and r.random() < 0.4:
+            # two held elements trade time: the cycle length and the number of elements stay the same (no query in between)
+            i, j = r.sample(range(len(es)), 2)
+            es = [list(e) for e in es]
+            if es[i][1] == 1:
+                i, j = j, i
+            if es[i][1] == 1:
+                i = max(range(len(es)), key=lambda n: es[n][1])
+                j = (i + 1) % len(es)
+            if es[i][1] != es[j][1] and r.random() < 0.5:
+                es[i][1], es[j][1] = es[j][1], es[i][1]
+            else:
+                d = r.randint(1, es[i][1] - 1)
+                es[i][1], es[j][1] = es[i][1] - d, es[j][1] + d
+            ops.append(["set_dur", i, es[i][1], "aggregate-preserving"])
+            ops.append(["set_dur", j, es[j][1], "aggregate-preserving"])
+        elif k == "set_dur":
             # an element the cycle holds gets another duration: cycle.cycle_elements[i].duration = d (the cycle is not told; since fix 233baea
             # the cached array validates itself when read)
             i = r.randrange(len(es))
@@ -2339,8 +2371,17 @@ def gen_cyc(ctx):
             ops.append(["set_state", i, es[i][0]])
         elif k == "list_edit":
             # list methods on the list the getter hands out (it is the cycle's own list)
-            how = r.choice(["append", "insert"] + (["pop"] if len(es) > 1 else []))
-            if how == "append":
+            how = r.choice(["append", "insert"] + (["pop", "reverse", "reverse", "swap", "rotate"] if len(es) > 1 else []))
+            if how in ("reverse", "swap", "rotate"):
+                # a permutation of the held list: number of elements and cycle length stay, the phase boundaries move
+                es = [list(e) for e in es]
+                if how == "reverse":
+                    es.reverse()
+                elif how == "rotate":
+                    es = es[1:] + es[:1]
+                else:
+                    es[0], es[-1] = es[-1], es[0]
+            elif how == "append":
                 es = [list(e) for e in es] + [g_cycle(r)[0]]
             elif how == "insert":
                 es = [g_cycle(r)[0]] + [list(e) for e in es]
@@ -2453,18 +2494,27 @@ def run_cyc(ctx, case, model=True):
                     c.cycle_elements.append(TrafficLightCycleElement(st[op[1][-1][0]], op[1][-1][1]))
                 elif op[2] == "insert":
                     c.cycle_elements.insert(0, TrafficLightCycleElement(st[op[1][0][0]], op[1][0][1]))
+                elif op[2] == "reverse":
+                    c.cycle_elements.reverse()
+                elif op[2] == "rotate":
+                    c.cycle_elements.append(c.cycle_elements.pop(0))
+                elif op[2] == "swap":
+                    lst = c.cycle_elements
+                    lst[0], lst[-1] = lst[-1], lst[0]
                 else:
                     c.cycle_elements.pop()
             r = call(f)
             mut = {"set_dur": "elemSetDuration", "set_state": "elemSetState", "list_edit": "elemsListEdit"}[k]
             rows.mutate("cycleInit", mut)
             ctx.tag("dim/cycle-" + k)
+            if (k == "list_edit" and op[2] in ("reverse", "swap", "rotate")) or (k == "set_dur" and len(op) > 3):
+                ctx.tag("dim/cycle-aggregate-preserving-edit")
             if k == "list_edit":
                 n_el = len(op[1])
             last_mut = CYC_NAMES[k]
             rows.did(last_mut)
             impl.append([] if r[0] == "ok" else [{"err": r[1]}])
-            m_ops.append(op[:2] if k == "list_edit" else op)
+            m_ops.append(op[:2] if k == "list_edit" else op[:3])
             continue
         if k == "set_es":
             how = op[2] if len(op) > 2 else "new"
